@@ -19,7 +19,7 @@ def firstBlacklisted (s : Bytes) : Option Bytes := tagBlacklist.find? fun t => i
 def delimAt (l : Bytes) (j : Nat) : Option Bool :=
   match l[j]? with
   | none => none
-  | some c => some (isSpace c || c == 0x3E || (c == 0x2F && l.length ≥ j + 2 && l[j+1]? == some 0x3E))
+  | some c => some (htmlSpace c || c == 0x3E || (c == 0x2F && l.length ≥ j + 2 && l[j+1]? == some 0x3E))
 
 /-- `tagfilter` as written in the source; `none` models the index panic. -/
 def tagfilterE (l : Bytes) : Option Bool :=
